@@ -64,7 +64,7 @@ func runPython(script string, args []string, shards int, each func(line []byte))
 			a := append([]string{script}, args...)
 			a = append(a, strconv.Itoa(s), strconv.Itoa(shards))
 			cmd := exec.Command("python3", a...)
-			cmd.Env = append(os.Environ(), "PYTHONPATH=/repo/python/mcap", "PYTHONDONTWRITEBYTECODE=1")
+			cmd.Env = append(os.Environ(), "PYTHONPATH="+chk.Repo()+"/python/mcap", "VERIF_REPO="+chk.Repo(), "PYTHONDONTWRITEBYTECODE=1")
 			var stderr bytes.Buffer
 			cmd.Stderr = &stderr
 			out, err := cmd.StdoutPipe()
